@@ -24,6 +24,7 @@ func rulesC18(c *Ctx) {
 	c18Round2(c)
 	c18Round3(c)
 	c18Round4(c)
+	c18Round5(c)
 	c.AssumeFalse = `^\*global:common/sgx/pcs\.unsafe(SkipVerify|LaxVerify)$`
 	ix := c.P.BuildIndex()
 	spec := map[string][]c18ob{
